@@ -55,18 +55,21 @@
        render configuration, valued or not: with --show-commodities the cell is the amount stored
        under that commodity, without it the sum over the commodities (collapse_key).
 
-   Not proved, decided by the correspondence on every run: the cells of the Total and Delta lines
-   against the ledger (their layout is C02_table_layout, Delta = 0 is C01), that a commodity line
-   is listed only for amounts under a period column (an amount stored under the zero date would
-   list its commodity; C02_table_cells states the criterion on the report tree and proves the
-   ledger direction), and the text of the CSV (printed form of the numbers, CSV quoting), i.e.
+   C02_table_totals  the numbers of the commodity lines of Total (A+L), Total (E+I+E) and Delta are
+       cell_amounts over all A/L accounts, over all other accounts (negated), over all accounts.
+
+   Not proved, decided by the correspondence on every run: which commodity lines the three total
+   rows list (their numbers are C02_table_totals, their place C02_table_layout, Delta = 0 is C01),
+   that a commodity line is listed only for amounts under a period column (an amount stored under
+   the zero date would list its commodity; C02_table_cells states the criterion on the report
+   tree and proves the ledger direction), and the text of the CSV (printed form of the numbers, CSV quoting), i.e.
    balance_csv = the rendering of ledger_csv as a theorem.  ledger_csv is built from exactly the
    expression above and is compared with the binary's CSV and the model's CSV on every run. *)
 From Coq Require Import ZArith List Bool.
 From Coq Require Import QArith.
 From Knut Require Import Model.Str Model.Dec Model.Date Model.Account Model.Ledger Model.Table Model.Report Model.Cli Spec.LedgerSpec
      Spec.LedgerSyntax Spec.BalanceTableSpec Proofs.DecValue Proofs.LedgerProofs Proofs.CloseProofs Proofs.LayoutProofs
-     Proofs.BalanceTableLayout Proofs.BalanceTableTree Proofs.BalanceTableCells.
+     Proofs.BalanceTableLayout Proofs.BalanceTableTree Proofs.BalanceTableCells Proofs.BalanceTableTotals.
 Import ListNotations.
 Open Scope Z_scope.
 
@@ -274,6 +277,30 @@ Theorem C02_table_cells : forall cfg ds r part,
 Proof. exact table_cells. Qed.
 Print Assumptions C02_table_cells.
 
+(* The total lines: the numbers of the line of commodity c of Total (A+L) / Total (E+I+E) / Delta
+   (line_rows = render_rows puts row_numbers of the totals after the name and commodity cells)
+   have the values of the ledger's period amounts over all A/L accounts / all other accounts,
+   negated / all accounts, accumulated unless --diff. *)
+Theorem C02_table_totals : forall cfg ds r part dl,
+  bc_valuation cfg = None ->
+  balance_report cfg ds = COk (r, part) ->
+  parse_directives ds = MOk dl ->
+  postings_syntactic dl ->
+  forall c,
+  let rc := balance_render_cfg cfg in
+  let es := ledger_entries cfg dl part in
+  let dates := end_dates part in
+  let total_al := node_totals (total_key rc) (sorted_al rc r) [] in
+  let total_eie := node_totals (total_key rc) (sorted_eie rc r) [] in
+  Forall2 num_is (row_numbers (bc_diff cfg) false total_al (Some c) dates dec_nil)
+                 (cell_amounts (bc_diff cfg) false es is_AL c dates dec_nil) /\
+  Forall2 num_is (row_numbers (bc_diff cfg) true total_eie (Some c) dates dec_nil)
+                 (cell_amounts (bc_diff cfg) true es (fun a => negb (is_AL a)) c dates dec_nil) /\
+  Forall2 num_is (row_numbers (bc_diff cfg) false (ra_plus total_al total_eie) (Some c) dates dec_nil)
+                 (cell_amounts (bc_diff cfg) false es (fun _ => true) c dates dec_nil).
+Proof. exact total_lines. Qed.
+Print Assumptions C02_table_totals.
+
 (* num_is is equality of values; cell_amounts is LedgerSpec.cells before printing *)
 Theorem C02_num_is_value : forall n d, num_is (CNum n) d <-> (dvalue n == dvalue d)%Q.
 Proof. exact num_is_value. Qed.
@@ -362,11 +389,10 @@ Example C02_table_example :
     map fst (account_blocks rc r dates) =
       [[s_Assets]; acc A; [s_Equity]; EQ; [s_Income]; acc I; [s_Expenses]; acc E] /\
     length (t_rows (render_report rc r dates)) = 21%nat /\
-    (exists a, In (EQ, a) (account_rows rc r) /\
-       acct_lines rc dates EQ a =
-         [[CText s_Equity ALeft 2; CText chf ALeft 0; CNum (mkDec 0 0); CNum (mkDec 1000 0); CNum (mkDec 1800 0); CNum (mkDec 1500 0)]]) /\
+    map (fun pa => acct_lines rc dates (fst pa) (snd pa)) (filter (fun pa => acc_eqb (fst pa) EQ) (account_rows rc r)) =
+      [[[CText s_Equity ALeft 2; CText chf ALeft 0; CNum (mkDec 0 0); CNum (mkDec 1000 0); CNum (mkDec 1800 0); CNum (mkDec 1500 0)]]] /\
     cell_amounts false true (ledger_entries cfg dl part) (acc_eqb EQ) chf dates dec_nil =
       [mkDec 0 0; mkDec 1000 0; mkDec 1800 0; mkDec 1500 0]
   | _, _ => False
   end.
-Proof. vm_compute. repeat split. eexists. split; [right; right; right; left; reflexivity|reflexivity]. Qed.
+Proof. vm_compute. repeat split. Qed.
